@@ -158,7 +158,7 @@ pub(crate) fn crop_source_window(
                     out.push('…');
                 }
             } else {
-                let (rendered, _crop) = crop_line_by_cols(line, left_col, right_col);
+                let (rendered, _crop) = crop_line_by_cols(line, left_col, right_col, true);
                 out.push_str(&rendered);
             }
 
@@ -724,7 +724,7 @@ fn crop_window_text(
         let line_start_new = out.len();
 
         let (rendered_line, crop) = if do_crop {
-            crop_line_by_cols(line, left_col, right_col)
+            crop_line_by_cols(line, left_col, right_col, row != error_row)
         } else {
             (
                 line.to_owned(),
@@ -815,7 +815,12 @@ struct LineCrop {
 /// Returns the cropped line plus enough metadata to rebase a byte-offset span from the original
 /// line into the cropped output. If the line is not cropped, the returned `LineCrop` will have
 /// `start_byte = 0` and `prefix_bytes = 0`.
-fn crop_line_by_cols(line: &str, left_col_1: usize, right_col_1: usize) -> (String, LineCrop) {
+fn crop_line_by_cols(
+    line: &str,
+    left_col_1: usize,
+    right_col_1: usize,
+    is_context_line: bool,
+) -> (String, LineCrop) {
     let line_len_cols = line.chars().count();
     if line_len_cols == 0 {
         return (
@@ -829,7 +834,22 @@ fn crop_line_by_cols(line: &str, left_col_1: usize, right_col_1: usize) -> (Stri
 
     // If the crop window starts at/after EOL for this line, keep it intact.
     // This avoids turning short context lines into just "…".
+    // (Only a context line that is no wider than the window is short: a longer one keeps its
+    // first window-width columns, so that no displayed line exceeds the configured width.)
     if left_col_1 >= line_len_cols.saturating_add(1) {
+        let width = right_col_1.saturating_sub(left_col_1).saturating_add(1);
+        if is_context_line && line_len_cols > width {
+            let end_byte = col_to_byte_offset_in_line(line, width + 1).unwrap_or(line.len());
+            let mut out = line[..end_byte].to_owned();
+            out.push('…');
+            return (
+                out,
+                LineCrop {
+                    start_byte: 0,
+                    prefix_bytes: 0,
+                },
+            );
+        }
         return (
             line.to_owned(),
             LineCrop {
